@@ -225,7 +225,7 @@ func (pc *ProfController) RenderDiff(w http.ResponseWriter, r *http.Request) {
 			defaultError(w, 400, fmt.Sprintf("Invalid value for %s: %s", html.EscapeString(v[0].(string)), html.EscapeString(strVal)))
 			return
 		}
-		*(v[1].(*time.Time)) = time.Unix(iVal/1000, 0)
+		*(v[1].(*time.Time)) = time.UnixMilli(iVal)
 	}
 	diff, err := pc.ProfService.RenderDiff(
 		r.Context(),
